@@ -76,7 +76,7 @@ def answer (kv : KV) : String :=
     let op := kv.getD "op" ""
     let form := parseForm (kv.getD "form" "o")
     let form2 := parseForm (kv.getD "form2" "o")
-    let plA := kv.getD "kind" "tr" = "pl"
+    let plA := kv.getD "kind" "tr" = "pl" || kv.getD "kind" "tr" = "zu"
     let plB := kv.getD "kind2" "tr" = "pl"
     -- plain element kinds have no destructor: their drop events do not exist
     let visible (e : Ev) : Bool :=
